@@ -201,6 +201,15 @@ def build(tier, repo):
                         r5.violation(key, m.where(s), "module-level mutable object other than the options dictionary",
                                      "none", pf.norm_expr(s)[:60])
     r5.require(3)
+
+    r6 = chk.rule("C09-R6", "compiled modules keep no state between calls: no file-scope or static variable is written outside module initialisation",
+                  "results depend only on the arguments (no hidden state; concurrent solves do not interfere)")
+    from .. import cfront as cf
+    from .. import cstate
+    cs = cf.load_c(repo, files=cstate.FILES)
+    nv = cstate.hidden_state_rule(r6, cs)
+    chk.note_analysed("c_file_scope_and_static_variables", nv)
+    r6.require(6)
     return chk
 
 
